@@ -743,6 +743,10 @@ def main(argv):
         for p in sorted(glob.glob(os.path.join(COQ, "theories/Properties/C*.v"))):
             rcs |= check(os.path.basename(p)[:-2], tier)
         return rcs
+    if not os.path.exists(os.path.join(COQ, "theories/Properties", args[0] + ".v")):
+        print(__doc__)
+        print("unknown property id: %s" % args[0])
+        return 2
     return check(args[0], tier, replay)
 
 
